@@ -1,20 +1,20 @@
 #!/bin/bash
 # bin/scratch.sh <seeded-name|--sed file expr> <PROP> [PROP...] : sensitivity probe in the parallel scratch workspace
-# (/tmp/verif2 built against the git worktree /tmp/repo2), so that /repo stays untouched while sweeps run.
+# (/tmp/verif${SCRATCH:-2} built against the git worktree /tmp/repo${SCRATCH:-2}), so that /repo stays untouched while sweeps run.
 V=$(cd "$(dirname "$0")/.." && pwd)
-rsync -a --exclude target --exclude replays --exclude .git --exclude evidence --exclude Cargo.lock $V/ /tmp/verif2/
-git -C /tmp/repo2 checkout -q -- . ; git -C /tmp/repo2 checkout -q --detach $(git -C /repo rev-parse HEAD) 2>/dev/null
+rsync -a --exclude target --exclude replays --exclude .git --exclude evidence --exclude Cargo.lock $V/ /tmp/verif${SCRATCH:-2}/
+git -C /tmp/repo${SCRATCH:-2} checkout -q -- . ; git -C /tmp/repo${SCRATCH:-2} checkout -q --detach $(git -C /repo rev-parse HEAD) 2>/dev/null
 if [ "$1" = "--sed" ]; then
   F=$2; E=$3; shift 3
-  sed -i -E "$E" /tmp/repo2/$F
-  git -C /tmp/repo2 diff --quiet && { echo "MUTATION DID NOT APPLY"; exit 3; }
-  git -C /tmp/repo2 diff | grep -E '^[-+][^-+]' | head -4
+  sed -i -E "$E" /tmp/repo${SCRATCH:-2}/$F
+  git -C /tmp/repo${SCRATCH:-2} diff --quiet && { echo "MUTATION DID NOT APPLY"; exit 3; }
+  git -C /tmp/repo${SCRATCH:-2} diff | grep -E '^[-+][^-+]' | head -4
 else
   N=$1; shift
-  git -C /tmp/repo2 apply $V/seeded/$N/patch.diff || { echo "$N: patch does not apply"; exit 3; }
+  git -C /tmp/repo${SCRATCH:-2} apply $V/seeded/$N/patch.diff || { echo "$N: patch does not apply"; exit 3; }
   echo "== $N"
 fi
 for P in "$@"; do
-  (cd /tmp/verif2 && VERIF_REPO=/tmp/repo2 VERIF_DIR=/tmp/verif2 bin/check $P quick 2>&1 | grep -E "^violation|^summary|HARNESS" | cut -c1-330 | head -5)
+  (cd /tmp/verif${SCRATCH:-2} && VERIF_REPO=/tmp/repo${SCRATCH:-2} VERIF_DIR=/tmp/verif${SCRATCH:-2} bin/check $P quick 2>&1 | grep -E "^violation|^summary|HARNESS" | cut -c1-330 | head -5)
 done
-git -C /tmp/repo2 checkout -q -- .
+git -C /tmp/repo${SCRATCH:-2} checkout -q -- .
